@@ -436,6 +436,36 @@ def rule_D15s(body):
     return _iter_adapter(body, "any", "D15", build)
 
 
+def rule_D18(body):
+    """D18: `(A..=B).map(|i| BODY).collect()` (in a function that returns the collected `Vec`) is written as
+    `({ let mut collected = Vec::new(); let mut i = A; while i <= B { collected.push(BODY); i = i + 1; } collected })` — the
+    definition of RangeInclusive iteration (A, A+1, .., B in order; nothing when A > B) followed by Iterator::map and collect into a
+    Vec.  The while loop would overflow where `B` is the largest value of the type, which RangeInclusive handles; the contract of
+    the function therefore has to carry `B < MAX` as a precondition, and Verus proves the absence of overflow from it.  A, B
+    plain paths or literals; BODY without return/break/continue/?; exactly one occurrence."""
+    m = mask(body)
+    hits = list(re.finditer(r"\(\s*([A-Za-z_0-9]+)\s*\.\.=\s*([A-Za-z_][A-Za-z0-9_.]*)\s*\)\s*\.map\(\s*\|\s*([A-Za-z_][A-Za-z0-9_]*)\s*\|\s*", m))
+    if len(hits) != 1:
+        raise LostAnchor(f"rule D18: `(A..=B).map(|i| ..)` matched {len(hits)} times")
+    mm = hits[0]
+    call_open = m.index("(", m.index(".map", mm.start()))
+    call_close = match_close(m, call_open) - 1
+    cbody = body[mm.end():call_close].strip()
+    if cbody.endswith(","):
+        cbody = cbody[:-1].rstrip()
+    if re.search(r"\breturn\b|\bbreak\b|\bcontinue\b|\?", mask(cbody)):
+        raise LostAnchor("rule D18: closure contains return/break/continue/?")
+    tail = re.match(r"\s*\.collect\(\)", m[call_close + 1:])
+    if not tail:
+        raise LostAnchor("rule D18: `.map(..)` is not directly followed by `.collect()`")
+    lo, hi, var = mm.group(1), mm.group(2), mm.group(3)
+    if re.search(r"\bcollected\b", m):
+        raise LostAnchor("rule D18: the name `collected` is already in use")
+    new = f"({{ let mut collected = Vec::new(); let mut {var} = {lo}; while {var} <= {hi} {{ collected.push({cbody}); {var} = {var} + 1; }} collected }})"
+    end = call_close + 1 + tail.end()
+    return body[:mm.start()] + new + body[end:], [("D18", re.sub(r"\s+", " ", body[mm.start():end])[:160], re.sub(r"\s+", " ", new)[:200])]
+
+
 def rule_D5b(body):
     """D5 (closure body): `.map(|x| EXPR)` with EXPR not a block is written `.map(|x| { EXPR })`, so that a ghost
     signature can be attached to the closure; same value.  Every occurrence, at least one."""
@@ -503,7 +533,7 @@ def rule_D4t(body):
     return pat.sub("range_from_element(", body), [("D4", "<Option<&SubtypeElements> as TryInto<PerVisibleRangeConstraints>>::try_into(", "range_from_element(")] * n
 
 
-RULES = {"D2": rule_D2, "D5": rule_D5, "D5c": rule_D5c, "D5m": rule_D5m, "D9": rule_D9, "D4t": rule_D4t, "D10": rule_D10, "D5b": rule_D5b, "D12": rule_D12, "D13": rule_D13, "D14": rule_D14, "D15": rule_D15, "D15s": rule_D15s, "D12s": rule_D12s, "D12m": rule_D12m, "D17": rule_D17}
+RULES = {"D2": rule_D2, "D5": rule_D5, "D5c": rule_D5c, "D5m": rule_D5m, "D9": rule_D9, "D4t": rule_D4t, "D10": rule_D10, "D5b": rule_D5b, "D12": rule_D12, "D13": rule_D13, "D14": rule_D14, "D15": rule_D15, "D15s": rule_D15s, "D12s": rule_D12s, "D12m": rule_D12m, "D17": rule_D17, "D18": rule_D18}
 
 
 class FnUnit:
